@@ -22,7 +22,7 @@ using namespace c17;
 static Args ARGS;
 
 enum { C_CASES = CNT_USER, C_CALLS, C_POINTS, C_EXPECTED, C_SPAN1, C_SPAN2, C_SPAN3, C_SPAN4, C_SPANU, C_WINDOW_CASES, C_BOUNDED_CASES,
-       C_WRAP, C_DROP, C_CIP, C_SKIP_POINTS, C_EMPTY_ARG_CASES, C_CIP_WINDOW, C_CIP_ENUM, C_CIP_GRID, C_CIP_SKIP, C_SUBSET, C_WIDE_W, C_ITEMS, C_SUBJ, C_MEMO };
+       C_WRAP, C_DROP, C_CIP, C_SKIP_POINTS, C_EMPTY_ARG_CASES, C_CIP_WINDOW, C_CIP_ENUM, C_CIP_GRID, C_CIP_SKIP, C_SUBSET, C_WIDE_W, C_ITEMS, C_SUBJ, C_MEMO, C_MEMO_IMPLIED };
 
 // ---------------------------------------------------------------------------------------------------
 struct ArgRef { const ArgSpec* a; bool wrap_ok, small_ok; };
@@ -58,6 +58,12 @@ static std::vector<CaseP> cases_of(const Item& it) {
   const DomInfo& di = DOMS[it.dom]; const ArgRef& ar = di.args[it.arg];
   int n = ar.a->n;
   static const unsigned THR[] = { 0, 1, 2, 16 };
+  // quick tier: the additional lazy states run thresholds {2,16}; domains whose wrap_assign ignores the threshold run {0,16}
+  bool thr_ok[4] = { true, true, true, true };
+  if (!ARGS.thorough()) {
+    if (di.dom->ignores_thr) { thr_ok[1] = thr_ok[2] = false; }
+    else if (it.mode >= di.dom->extra_from) { thr_ok[0] = thr_ok[1] = false; }
+  }
   if (di.dom->has_wrap && ar.wrap_ok && n >= 1) {
     std::vector<unsigned> ws = wsets(n);
     for (size_t wi = 0; wi < ws.size(); ++wi)
@@ -65,6 +71,7 @@ static std::vector<CaseP> cases_of(const Item& it) {
         for (int g = -1; g < (int)GUARDS.size(); ++g) {
           if (g >= 0 && (GUARDS[g].vars & ~ws[wi])) continue;
           for (int t = 0; t < 4; ++t) for (int ind = 0; ind < 2; ++ind) {
+            if (!thr_ok[t]) continue;
             CaseP c; c.op = OP_WRAP; c.wmask = ws[wi]; c.rep = rep; c.ovf = ovf; c.guard = g; c.thr = THR[t]; c.ind = ind != 0; c.cc = 0;
             out.push_back(c);
           }
@@ -441,9 +448,13 @@ static void run_case(ItemCtx& cx, const CaseP& c) {
     Eval res; s->describe(res.d, false); res.prepare();
     Lost L;
     { RefGuard g;
-      std::string key = std::to_string(c.wmask) + "/" + std::to_string(c.rep) + "/" + std::to_string(c.ovf) + "/" + std::to_string(c.guard) + "/" + desc_key(res.d);
-      std::map<std::string, Lost>::iterator f = cx.memo.find(key);
+      std::string dk = desc_key(res.d), pre = std::to_string(c.wmask) + "/" + std::to_string(c.rep) + "/" + std::to_string(c.ovf) + "/";
+      std::string key = pre + std::to_string(c.guard) + "/" + dk;
+      std::map<std::string, Lost>::iterator f = cx.memo.find(key), f0;
       if (f != cx.memo.end()) { L = f->second; count(C_MEMO); }
+      // the points required under a guard are a subset of those required without it: a printed result that was judged
+      // lossless for the guard-free call (same vars, r, o) is lossless under every guard
+      else if (c.guard >= 0 && (f0 = cx.memo.find(pre + "-1/" + dk)) != cx.memo.end() && f0->second.lost == 0) { L = Lost(); cx.memo[key] = L; count(C_MEMO_IMPLIED); }
       else { L = check_wrap(res, P, cx.fpts[c.wmask], c.wmask, n, w, c.rep, c.ovf, grow); cx.memo[key] = L; count(C_EXPECTED, L.expected); count(C_POINTS, (long long)P.pts.size()); }
     }
     int sp = span_of(P, c.wmask, n, w, c.rep);
@@ -660,13 +671,14 @@ int main(int argc, char** argv) {
     .num("wrap_cases_spanning_1_quadrant", counter(C_SPAN1)).num("wrap_cases_spanning_2_quadrants", counter(C_SPAN2)).num("wrap_cases_spanning_3_quadrants", counter(C_SPAN3))
     .num("wrap_cases_spanning_4_or_more_quadrants", counter(C_SPAN4)).num("wrap_cases_unbounded_in_a_wrapped_variable", counter(C_SPANU))
     .num("cases_bounded_all_integer_points", counter(C_BOUNDED_CASES)).num("cases_window_only_necessary_condition", counter(C_WINDOW_CASES)).num("cases_argument_without_integer_point", counter(C_EMPTY_ARG_CASES))
-    .num("wrap_cases_whose_printed_result_equals_an_already_judged_one", counter(C_MEMO)).num("cases_wider_than_8_bits", counter(C_WIDE_W)).num("cases_skipped_too_many_points", counter(C_SKIP_POINTS)).num("subset_tests", counter(C_SUBSET))
+    .num("wrap_cases_whose_printed_result_equals_an_already_judged_one", counter(C_MEMO)).num("wrap_cases_with_guard_whose_printed_result_was_judged_lossless_without_guard", counter(C_MEMO_IMPLIED)).num("cases_wider_than_8_bits", counter(C_WIDE_W)).num("cases_skipped_too_many_points", counter(C_SKIP_POINTS)).num("subset_tests", counter(C_SUBSET))
     .num("cip_exact_by_enumeration", counter(C_CIP_ENUM)).num("cip_exact_by_window_argument", counter(C_CIP_WINDOW)).num("cip_exact_by_lattice_reasoning", counter(C_CIP_GRID)).num("cip_skipped", counter(C_CIP_SKIP))
     .num("cases_skipped_by_deadline", counter(CNT_SKIPPED)).num("cases_skipped_oracle_resource_limit", counter(CNT_REFCRASH)).arr("domains", dn)
     .str("note", "Partially_Reduced_Product has no wrap_assign / contains_integer_point in this PPL: the product is covered for drop_some_non_integer_points only");
   J st; st.str("t", "stats").num("states", counter(C_CASES)).num("transitions", counter(C_CALLS)).num("traces_validated_against_impl", counter(C_CALLS)).boolean("exhaustive", complete)
     .str("bound", "menus of harness/c17_menu.hh: widths {" + wl + "}; wrap_assign: vars in {x},{y},{x,y} (dim 3: pairs and all), 2 representations, 3 overflow modes, guards none + "
-         + std::to_string(GUARDS.size()) + " systems (those over the wrapped variables), thresholds {0,1,2,16}, individually/collectively; drop_some_non_integer_points: all dims + every non-empty variable set, 3 complexity classes; contains_integer_point; every lazy state of every domain"
+         + std::to_string(GUARDS.size()) + " systems (those over the wrapped variables), thresholds {0,1,2,16}, individually/collectively; drop_some_non_integer_points: all dims + every non-empty variable set, 3 complexity classes; contains_integer_point; every lazy state of every domain (polyhedra 6, boxes/BD shapes/octagons 4, grids 7, powerset 3, product 2)"
+         + (ARGS.thorough() ? std::string("") : std::string("; quick tier: the added lazy states run thresholds {2,16}, Grid (which ignores the threshold) runs {0,16}, dimension-3 arguments run in the first lazy state only"))
          + "; OVERFLOW_UNDEFINED: all 2^w in-range re-assignments for w=8, 20 boundary/sample values per coordinate for wider types")
     .arr("samples", samples).raw("extra", extra.done()).dbl("wall_s", now_s() - t0);
   sink().line(st.done());
